@@ -18,7 +18,9 @@ namespace LndModel.C11.Driver
 
 def substr (s : String) (a n : Nat) : String := String.ofList ((s.toList.drop a).take n)
 
-/-- key identity used for bindings: `(salt0, key0, epoch, isSalt)` -/
+/-- key identity used for the byte bindings (cheap to compare): salt and key installed by
+    `split`, number of rotations since, salt-or-key.  The model itself carries the full key
+    terms; this is only the driver's name for them. -/
 abbrev KeyRef := Term × Term × Nat × Bool
 
 structure Mach where
@@ -27,6 +29,12 @@ structure Mach where
   snd : Sender := { cs := CipherState.init Term.zeroKey Term.zeroKey, hdr := [], body := [] }
   rcv : CipherState := CipherState.init Term.zeroKey Term.zeroKey
   split : Bool := false
+  /-- `(salt, key)` installed by `split` and AEAD uses since, per direction (driver bookkeeping
+      for the rotation count the harness reports) -/
+  sBase : Term × Term := (Term.zeroKey, Term.zeroKey)
+  rBase : Term × Term := (Term.zeroKey, Term.zeroKey)
+  sUses : Nat := 0
+  rUses : Nat := 0
   -- monitor bookkeeping (from the trace only)
   peer : Nat := 0
   isInit : Bool := false
@@ -56,7 +64,27 @@ structure Mach where
   lastHead : Option Nat := none
   /-- the implementation reported buffered bytes after its last operation -/
   implPend : Bool := false
+  /-- receive nonce / rotation count the implementation reported after its last operation -/
+  implRn : Nat := 0
+  implRe : Nat := 0
 deriving Inhabited
+
+/-- AEAD uses between two states of one cipher stream (an operation makes at most two) -/
+def usesBetween (c c' : CipherState) : Nat :=
+  (c'.nonce + keyRotationInterval - c.nonce) % keyRotationInterval
+
+def Mach.withSnd (m : Mach) (s' : Sender) : Mach :=
+  { m with snd := s', sUses := m.sUses + usesBetween m.snd.cs s'.cs }
+
+def Mach.withRcv (m : Mach) (c' : CipherState) : Mach :=
+  { m with rcv := c', rUses := m.rUses + usesBetween m.rcv c' }
+
+def Mach.splitTo (m : Mach) (snd rcv : CipherState) : Mach :=
+  { m with split := true, snd := { cs := snd, hdr := [], body := [] }, rcv := rcv,
+           sBase := (snd.salt, snd.key), rBase := (rcv.salt, rcv.key), sUses := 0, rUses := 0 }
+
+def Mach.sEpoch (m : Mach) : Nat := m.sUses / keyRotationInterval
+def Mach.rEpoch (m : Mach) : Nat := m.rUses / keyRotationInterval
 
 structure Pipe where
   id : Nat := 0
@@ -148,9 +176,10 @@ def bindKey (s : St) (k : KeyRef) (hex : String) (what : String) : IO St := do
     | some _ => mismatch s s!"{what}: different symbolic keys, identical bytes {hex}"
     | none => return { s with keyTab := (k, hex) :: s.keyTab }
 
-/-- before the first rotation the salt is `salt0` whatever the key is. -/
-def keyRefOf (c : CipherState) (salt : Bool) : KeyRef :=
-  if salt && c.epoch == 0 then (c.salt0, Term.atom 0, 0, true) else (c.salt0, c.key0, c.epoch, salt)
+/-- before the first rotation the salt is the installed salt whatever the key is. -/
+def keyRefOf (base : Term × Term) (uses : Nat) (salt : Bool) : KeyRef :=
+  let epoch := uses / keyRotationInterval
+  if salt && epoch == 0 then (base.1, Term.atom 0, 0, true) else (base.1, base.2, epoch, salt)
 
 def fieldOf (s : St) (hex : String) : CtField :=
   match s.termTab.find? (·.2 == hex) with
@@ -180,9 +209,9 @@ def pubHex (s : St) (k : Nat) : String := ((s.pubs.find? (·.1 == k)).map (·.2)
 
 /-- compare the observation suffix `sn= se= rn= re= hl= bl=` with the model. -/
 def checkObs (s : St) (m : Mach) (obs : List String) (op : String) : IO St := do
-  let want := s!"sn={m.snd.cs.nonce} se={m.snd.cs.epoch} rn={m.rcv.nonce} re={m.rcv.epoch} hl={m.snd.hdr.length} bl={m.snd.body.length}"
+  let want := s!"sn={m.snd.cs.nonce} se={m.sEpoch} rn={m.rcv.nonce} re={m.rEpoch} hl={m.snd.hdr.length} bl={m.snd.body.length}"
   let got := s!"sn={(kvNat? obs "sn").getD 0} se={(kvNat? obs "se").getD 0} rn={(kvNat? obs "rn").getD 0} re={(kvNat? obs "re").getD 0} hl={(kvNat? obs "hl").getD 0} bl={(kvNat? obs "bl").getD 0}"
-  let s := { s with maxEpoch := max s.maxEpoch (max m.snd.cs.epoch m.rcv.epoch) }
+  let s := { s with maxEpoch := max s.maxEpoch (max m.sEpoch m.rEpoch) }
   if want == got then return s else mismatch s s!"{op} mach={m.id}: model [{want}] impl [{got}]"
 
 /-- generated act one/two: layout and tag binding -/
@@ -248,6 +277,17 @@ def monitorDelivered (s : St) (m : Mach) (d : Msg) : IO (St × Mach) := do
     | none => monitor s "delivered-not-sent" s!"mach {m.id} message #{m.readIdx}: delivered {showVal d}, nothing was sent"
   return (s, { m with readIdx := m.readIdx + 1 })
 
+/-- provenance clause: a read (before the first failure) returned data although the bytes it
+    consumed are not exactly the peer's next record as the peer wrote it (`exact=0` is computed by
+    the harness from the origin of every consumed byte: altered, replayed, reordered, deleted,
+    reflected or foreign bytes all give 0). Independent of the model and of the content. -/
+def monitorTampered (s : St) (m : Mach) (res : List String) (op : String) : IO St := do
+  if m.peer == 0 || m.readFailed then return s
+  match kv? res "exact" with
+  | some "1" => return s
+  | some "0" => monitor s "tampered-accepted" s!"{op} mach={m.id} message #{m.readIdx}: data returned from bytes that are not the peer's next record as written ({res})"
+  | _ => return s
+
 /-- a read by `m` from pipe `p` failed with class `res` (`stage` = header/body). -/
 def monitorReadFail (s : St) (m : Mach) (p : Pipe) (res : String) (consumed : Bool) : IO (St × Mach) := do
   let mut s := { s with rejected := s.rejected + 1 }
@@ -258,7 +298,8 @@ def monitorReadFail (s : St) (m : Mach) (p : Pipe) (res : String) (consumed : Bo
   return (s, { m with readFailed := true })
 
 def noteObs (m : Mach) (obs : List String) : Mach :=
-  { m with implPend := (kvNat? obs "hl").getD 0 + (kvNat? obs "bl").getD 0 > 0 }
+  { m with implPend := (kvNat? obs "hl").getD 0 + (kvNat? obs "bl").getD 0 > 0,
+           implRn := (kvNat? obs "rn").getD 0, implRe := (kvNat? obs "re").getD 0 }
 
 def dirty (s : St) (pid : Nat) : St := setPipe s { getPipe s pid with clean := false }
 
@@ -266,54 +307,8 @@ def dirty (s : St) (pid : Nat) : St := setPipe s { getPipe s pid with clean := f
 def touchPipe (s : St) (m : Mach) (p : Pipe) : St :=
   if m.peer == p.id then s else dirty s p.id
 
-/-! #### Conn-level handshake (Dial / Listener.doHandshake) -/
-
-structure ConnOut where
-  dial : String
-  accept : String
-  rpub : String
-  keys : Option ((CipherState × CipherState) × (CipherState × CipherState))
-
-def tamper12 (a : Act12) (off : Nat) (pk : String) : Act12 :=
-  if off == 0 then { a with ver := 999 }
-  else if off ≤ 33 then { a with e := pubField pk }
-  else { a with tag := .junk }
-
-def tamper3 (a : Act3) (off : Nat) : Act3 :=
-  if off == 0 then { a with ver := 999 }
-  else if off ≤ 49 then { a with c := .junk }
-  else { a with tag := .junk }
-
-/-- `kind` = none | flip | cut; `dir` = i2r | r2i; `off` = stream offset. -/
-def connModel (is ie target rs re : Nat) (kind dir : String) (off : Nat) (pk : String) : ConnOut :=
-  let i0 := HState.new true is (some target)
-  let r0 := HState.new false rs none
-  let fail (d a : String) : ConnOut := { dial := d, accept := a, rpub := "-", keys := none }
-  match genActOne i0 ie with
-  | (.error _, _) => fail "panic" "io"
-  | (.ok a1, i1) =>
-    if kind == "cut" && dir == "i2r" && off < actOneSize then fail "io" "io" else
-    let a1 := if kind == "flip" && dir == "i2r" && off < actOneSize then tamper12 a1 off pk else a1
-    match recvActOne r0 a1 with
-    | (.error e, _) => fail "io" (hErrStr e)
-    | (.ok (), r1) =>
-      match genActTwo r1 re with
-      | (.error _, _) => fail "io" "panic"
-      | (.ok a2, r2) =>
-        if kind == "cut" && dir == "r2i" then fail "io" "io" else
-        let a2 := if kind == "flip" && dir == "r2i" then tamper12 a2 off pk else a2
-        match recvActTwo i1 a2 with
-        | (.error e, _) => fail (hErrStr e) "io"
-        | (.ok (), i2) =>
-          match genActThree i2 with
-          | (.error _, _) => fail "panic" "io"
-          | (.ok (a3, ikeys), _) =>
-            if kind == "cut" && dir == "i2r" then fail "ok" "io" else
-            let a3 := if kind == "flip" && dir == "i2r" then tamper3 a3 (off - actOneSize) else a3
-            match recvActThree r2 a3 with
-            | (.error e, _) => fail "ok" (hErrStr e)
-            | (.ok rkeys, r3) =>
-              { dial := "ok", accept := "ok", rpub := (r3.rs.map toString).getD "-", keys := some (ikeys, rkeys) }
+def connResStr : ConnRes → String
+  | .ok => "ok" | .io => "io" | .hs e => hErrStr e
 
 /-! #### the step function -/
 
@@ -414,12 +409,20 @@ def step (s : St) (line : String) : IO St := do
       match a.tag with
       | .ct t => s ← bindTerm s t (substr hex 100 32) s!"gen3 mach={m.id} tag"
       | .junk => pure ()
-      let m := { m with out3 := hex, g3ok := true, split := true, rcv := rcv,
-                        snd := { cs := snd, hdr := [], body := [] } }
+      let m := { (m.splitTo snd rcv) with out3 := hex, g3ok := true }
       return setMach s m
     | .error e =>
       let s ← if res0 == hErrStr e then pure s else mismatch s s!"gen3: model={hErrStr e} impl={res0}"
       return setMach s m
+  | "gen3bad" :: id :: _ =>
+    -- the harness sealed 33 bytes that are no curve point with the machine's own handshake
+    -- cipher (`EncryptAndHash`) and put them where act three carries the static key
+    let s := { s with ops := s.ops + 1 }
+    let m := getMach s ((nat? id).getD 0)
+    let (c, hs') := m.hs.encryptAndHash (Term.atom 77)
+    let hex := (kv? res "act").getD ""
+    let s ← bindTerm s c (substr hex 2 98) s!"gen3bad mach={m.id} ciphertext"
+    return setMach s { m with hs := hs' }
   | "recv1" :: id :: rest | "recv2" :: id :: rest =>
     let s := { s with ops := s.ops + 1 }
     let op := args.head!
@@ -463,7 +466,7 @@ def step (s : St) (line : String) : IO St := do
     if !honestInput then m := { m with hsClean := false }
     match r with
     | .ok (snd, rcv) =>
-      m := { m with split := true, rcv := rcv, snd := { cs := snd, hdr := [], body := [] } }
+      m := m.splitTo snd rcv
       if res0 == "ok" then
         let want := (hs'.rs.map toString).getD "-"
         if (kv? res "rpub").getD "-" != want then
@@ -494,10 +497,10 @@ def step (s : St) (line : String) : IO St := do
     let rs := (kv? res "rs").getD "?"
     let mut s := s
     if !m.split then s ← mismatch s s!"keys mach={m.id}: model has not split"
-    s ← bindKey s (keyRefOf m.snd.cs false) sk s!"keys mach={m.id} send key"
-    s ← bindKey s (keyRefOf m.snd.cs true) ss s!"keys mach={m.id} send salt"
-    s ← bindKey s (keyRefOf m.rcv false) rk s!"keys mach={m.id} recv key"
-    s ← bindKey s (keyRefOf m.rcv true) rs s!"keys mach={m.id} recv salt"
+    s ← bindKey s (keyRefOf m.sBase m.sUses false) sk s!"keys mach={m.id} send key"
+    s ← bindKey s (keyRefOf m.sBase m.sUses true) ss s!"keys mach={m.id} send salt"
+    s ← bindKey s (keyRefOf m.rBase m.rUses false) rk s!"keys mach={m.id} recv key"
+    s ← bindKey s (keyRefOf m.rBase m.rUses true) rs s!"keys mach={m.id} recv salt"
     s ← checkObs s m obs "keys"
     -- monitor: mirror
     let m := { m with keysSeen := some (sk, ss, rk, rs) }
@@ -519,6 +522,7 @@ def step (s : St) (line : String) : IO St := do
     let msg : Msg := { len := len, val := parseVal len ((kv? rest "val").getD "0") }
     let mut m := m
     let c0 := m.snd.cs
+    let u0 := m.sUses
     -- monitor (trace only): refusal exactly when oversized or something is still buffered
     let mustRefuse := len > maxPayload || m.implPend
     let s ← if res0 == "ok" && mustRefuse then
@@ -530,12 +534,12 @@ def step (s : St) (line : String) : IO St := do
     match writeMessage m.snd msg with
     | .ok snd' =>
       let mut s ← if res0 == "ok" then pure s else mismatch s s!"write mach={m.id}: model=ok impl={res0}"
-      m := { m with snd := snd' }
+      m := m.withSnd snd'
       if res0 == "ok" then
         let hk := (kv? res "hk").getD "?"
         let bk := (kv? res "bk").getD "?"
-        s ← bindKey s (keyRefOf c0 false) hk s!"write mach={m.id} header key"
-        s ← bindKey s (keyRefOf c0.advance false) bk s!"write mach={m.id} body key"
+        s ← bindKey s (keyRefOf m.sBase u0 false) hk s!"write mach={m.id} header key"
+        s ← bindKey s (keyRefOf m.sBase (u0 + 1) false) bk s!"write mach={m.id} body key"
         if kvNat? res "hn" != some c0.nonce then
           s ← mismatch s s!"write mach={m.id}: header nonce model={c0.nonce} impl={(kv? res "hn").getD "?"}"
         if kvNat? res "bn" != some c0.advance.nonce then
@@ -545,7 +549,8 @@ def step (s : St) (line : String) : IO St := do
         | some hn, some bn =>
           (s, m) ← monitorUsed s m hk hn
           (s, m) ← monitorUsed s m bk bn
-        | _, _ => pure ()
+        | _, _ =>
+          s ← monitor s "nonce-unique" s!"mach {m.id}: record sealed under a (key, nonce) that is none of this connection's keys with a nonce below {keyRotationInterval} (hk={hk} hn={(kv? res "hn").getD "?"} bk={bk} bn={(kv? res "bn").getD "?"})"
         m := { m with sent := m.sent.push msg, pend := some (len, 0, 0) }
       s ← checkObs s m obs "write"
       return setMach s m
@@ -569,7 +574,7 @@ def step (s : St) (line : String) : IO St := do
     let mut s := s
     if r.nn != implN || modelErr != implErr then
       s ← mismatch s s!"flush mach={m.id} budget={(kv? rest "budget").getD "?"}: model n={r.nn} err={modelErr}, impl n={implN} err={implErr}"
-    let mut m := { m with snd := r.st }
+    let mut m := m.withSnd r.st
     let p := getPipe s m.id
     s := setPipe s { p with buf := p.buf ++ r.out, hist := if p.keepHist then p.hist ++ r.out else [] }
     -- monitor: accounting, recomputed from the budgets alone
@@ -595,10 +600,10 @@ def step (s : St) (line : String) : IO St := do
     let s := { s with ops := s.ops + 1 }
     let m := getMach s ((nat? id).getD 0)
     let p := getPipe s ((kvNat? rest "from").getD 0)
-    let rn0 := m.rcv
     let (r, c', w') := readMessage m.rcv p.buf
-    let implConsumed := !(kvNat? obs "rn" == some rn0.nonce && kvNat? obs "re" == some rn0.epoch)
-    let mut m := { m with rcv := c' }
+    -- did the implementation's receive state move? (its own previous report, not the model's)
+    let implConsumed := !(kvNat? obs "rn" == some m.implRn && kvNat? obs "re" == some m.implRe)
+    let mut m := m.withRcv c' 
     let mut s := touchPipe s m p
     s := setPipe s { getPipe s p.id with buf := w' }
     match r with
@@ -612,18 +617,19 @@ def step (s : St) (line : String) : IO St := do
     -- monitor
     if res0 == "ok" then
       let len := (kvNat? res "len").getD 0
+      s ← monitorTampered s m res "read"
       (s, m) ← monitorDelivered s m { len := len, val := parseVal len ((kv? res "val").getD "0") }
     else
       (s, m) ← monitorReadFail s m p res0 implConsumed
       if !(res0 == "eof" && !implConsumed) then s := dirty s p.id
     s ← checkObs s m obs "read"
-    return setMach s m
+    return setMach s (noteObs m obs)
   | "rhead" :: id :: rest =>
     let s := { s with ops := s.ops + 1 }
     let m := getMach s ((nat? id).getD 0)
     let p := getPipe s ((kvNat? rest "from").getD 0)
     let (r, c', w') := readHeader m.rcv p.buf
-    let mut m := { m with rcv := c', lastHead := none }
+    let mut m := { (m.withRcv c') with lastHead := none }
     let mut s := touchPipe s m p
     s := setPipe s { getPipe s p.id with buf := w' }
     match r with
@@ -640,7 +646,7 @@ def step (s : St) (line : String) : IO St := do
       (s, m) ← monitorReadFail s m p res0 (res0 != "eof")
       if res0 != "eof" then s := dirty s p.id
     s ← checkObs s m obs "rhead"
-    return setMach s m
+    return setMach s (noteObs m obs)
   | "rbody" :: id :: rest =>
     let s := { s with ops := s.ops + 1 }
     let m := getMach s ((nat? id).getD 0)
@@ -648,7 +654,7 @@ def step (s : St) (line : String) : IO St := do
     let n := (kvNat? rest "n").getD 0
     let (r, c', w') := readBody m.rcv n p.buf
     let paired := m.lastHead == some n
-    let mut m := { m with rcv := c', lastHead := none }
+    let mut m := { (m.withRcv c') with lastHead := none }
     let mut s := touchPipe s m p
     s := setPipe s { getPipe s p.id with buf := w' }
     match r with
@@ -662,12 +668,13 @@ def step (s : St) (line : String) : IO St := do
     if res0 == "ok" then
       if paired then
         let len := (kvNat? res "len").getD 0
+        s ← monitorTampered s m res "rbody"
         (s, m) ← monitorDelivered s m { len := len, val := parseVal len ((kv? res "val").getD "0") }
     else
       (s, m) ← monitorReadFail s m p res0 true
       s := dirty s p.id
     s ← checkObs s m obs "rbody"
-    return setMach s m
+    return setMach s (noteObs m obs)
   ----------------------------------------------------------------- tampering
   | "corrupt" :: pid :: rest =>
     let p := getPipe s ((nat? pid).getD 0)
@@ -700,13 +707,19 @@ def step (s : St) (line : String) : IO St := do
     let kind := tam.head?.getD "none"
     let dir := tam[1]?.getD ""
     let off := (tam[2]?.bind nat?).getD 0
-    let o := connModel (g "is") (g "ie") (g "target") (g "rs") (g "re") kind dir off ((kv? rest "pk").getD "invalid")
+    let pkf := pubField ((kv? rest "pk").getD "invalid")
+    let tamper : Tamper :=
+      if kind == "flip" then .flip (dir == "i2r") off pkf
+      else if kind == "cut" then .cut (dir == "i2r") off
+      else .none
+    let o := connHandshake (g "is") (g "ie") (g "target") (g "rs") (g "re") tamper
     let dial := (kv? res "dial").getD "?"
     let acc := (kv? res "accept").getD "?"
     let rpub := (kv? res "rpub").getD "-"
+    let oRpub := (o.rpub.map toString).getD "-"
     let mut s := s
-    if o.dial != dial || o.accept != acc || o.rpub != rpub then
-      s ← mismatch s s!"connhs tamper={(kv? rest "tamper").getD "?"}: model dial={o.dial} accept={o.accept} rpub={o.rpub}, impl dial={dial} accept={acc} rpub={rpub}"
+    if connResStr o.dial != dial || connResStr o.accept != acc || oRpub != rpub then
+      s ← mismatch s s!"connhs tamper={(kv? rest "tamper").getD "?"}: model dial={connResStr o.dial} accept={connResStr o.accept} rpub={oRpub}, impl dial={dial} accept={acc} rpub={rpub}"
     -- monitor
     let right := pubHex s (g "target") == pubHex s (g "rs")
     if acc == "ok" then s := { s with hsOk := s.hsOk + 1 } else s := { s with hsRejected := s.hsRejected + 1 }
@@ -720,8 +733,8 @@ def step (s : St) (line : String) : IO St := do
       s ← monitor s "handshake-auth" s!"listener reports remote key {rpub}, dialler is {g "is"}"
     match o.keys with
     | some ((isnd, ircv), (rsnd, rrcv)) =>
-      s := setMach s { id := 1, split := true, snd := { cs := isnd, hdr := [], body := [] }, rcv := ircv, peer := 2 }
-      s := setMach s { id := 2, split := true, snd := { cs := rsnd, hdr := [], body := [] }, rcv := rrcv, peer := 1 }
+      s := setMach s { (({ id := 1 } : Mach).splitTo isnd ircv) with peer := 2 }
+      s := setMach s { (({ id := 2 } : Mach).splitTo rsnd rrcv) with peer := 1 }
       s := setPipe s { id := 1 }
       s := setPipe s { id := 2 }
     | none => pure ()
@@ -734,24 +747,18 @@ def step (s : St) (line : String) : IO St := do
       | [l, v] => (nat? l).map fun l => { len := l, val := parseVal l v }
       | _ => none
     let budget0 := (kv? rest "budget").bind nat?
-    let mut m := getMach s wid
-    let mut p := getPipe s wid
-    let mut budget := budget0
-    let mut total := 0
-    let mut err := "ok"
-    for c in chunks do
-      if err == "ok" then
-        match writeMessage m.snd c with
-        | .error .tooLong => err := "toolong"
-        | .error .notFlushed => err := "notflushed"
-        | .ok snd' =>
-          let r := flush snd' budget false
-          m := { m with snd := r.st }
-          p := { p with buf := p.buf ++ r.out }
-          budget := r.budget
-          total := total + r.nn
-          if r.err then err := "timeout"
+    let m0 := getMach s wid
+    let p0 := getPipe s wid
+    let r := connWrite m0.snd budget0 chunks
+    let m := m0.withSnd r.st
+    let p := { p0 with buf := p0.buf ++ r.out }
+    let total := r.n
+    let err := match r.err with
+      | .none => "ok" | .timeout => "timeout" | .refused .tooLong => "toolong" | .refused .notFlushed => "notflushed"
     let mut s := setPipe (setMach s m) p
+    -- the record lengths the harness reports are those of `chunkLens`
+    if chunks.map (·.len) != chunkLens (chunks.foldl (fun a c => a + c.len) 0) then
+      s ← mismatch s s!"cwrite {who}: record lengths {chunks.map (·.len)} differ from the model's chunking"
     let implN := (kvNat? res "n").getD 0
     let implErr := (kv? res "err").getD "?"
     if implN != total || implErr != err || kvNat? res "pl" != some p.buf.length then
@@ -776,20 +783,14 @@ def step (s : St) (line : String) : IO St := do
     let rid := if who == "i" then 2 else 1
     let want := (kvNat? rest "want").getD 0
     let sentChunks := ((s.connSent.find? (·.1 == who)).map (·.2)).getD []
-    let mut m := getMach s rid
-    let mut p := getPipe s wid
-    let mut got : List Msg := []
-    let mut n := 0
-    let mut err := "ok"
-    let mut fuel := sentChunks.length + 1
-    while (n < want || (want == 0 && got.isEmpty)) && err == "ok" && fuel > 0 do
-      fuel := fuel - 1
-      let (r, c', w') := readMessage m.rcv p.buf
-      m := { m with rcv := c' }
-      p := { p with buf := w' }
-      match r with
-      | .ok d => got := got ++ [d]; n := n + d.len
-      | .error e => err := rErrStr e
+    let m0 := getMach s rid
+    let p0 := getPipe s wid
+    let rr := connReadMsgs (sentChunks.length + 1) want m0.rcv p0.buf
+    let got := rr.1
+    let n := got.foldl (fun a d => a + d.len) 0
+    let err := match rr.2.1 with | none => "ok" | some e => rErrStr e
+    let m := m0.withRcv rr.2.2.1
+    let p := { p0 with buf := rr.2.2.2 }
     let mut s := setPipe (setMach s m) p
     let modelErr := if want == 0 && err == "ok" then "eof" else err   -- bytes.Buffer.Read on an empty record
     let same := got == sentChunks
